@@ -38,7 +38,14 @@ Theorem C19_grpc_assert_never_panics : forall st p code out, grpc_assert st p co
 Proof. exact grpc_assert_not_panic. Qed.
 Print Assumptions C19_grpc_assert_never_panics.
 
-(* BaseGun.Shoot is total: for every abstract response (any status, body read ok or failing, connection ok /
+(* the dump / trace / answlog / debug-logging branches of Shoot and shootStep, for every combination of the gun
+   options and every abstract response: none of them panics (each use of the response is behind a nil check or
+   after the error return) *)
+Theorem C19_option_branches_never_panic : forall o r, is_panic (side_branches o r) = false.
+Proof. exact side_branches_no_panic. Qed.
+Print Assumptions C19_option_branches_never_panic.
+
+(* BaseGun.Shoot is total: for every gun option combination (part of c) and every abstract response (any status, body read ok or failing, connection ok /
    refused / reset / timeout / eof / protocol error) a bound gun without a failing Connect hook returns with exactly
    one sample: the received status without error for a clean exchange, an error otherwise (with the received status
    whenever a response arrived). http2 guns: under the documented condition only (target speaks HTTP/2). *)
@@ -67,8 +74,8 @@ Proof. exact scenario_shoot_total. Qed.
 Print Assumptions C19_scenario_total.
 
 (* ... in particular with the modelled postprocessors in any configuration *)
-Theorem C19_scenario_total_modelled : forall (specs : list (bool * bool * bool * response * list pp_cfg)),
-  let steps := map (fun '(pre, tmpl, prep, r, pps) => mk_step pre tmpl prep r pps) specs in
+Theorem C19_scenario_total_modelled : forall o (specs : list (bool * bool * bool * response * list pp_cfg)),
+  let steps := map (fun '(pre, tmpl, prep, r, pps) => mk_step o pre tmpl prep r pps) specs in
   exists l, scenario_shoot true steps = Returned l /\ length l = executed steps /\ Forall sample_ok_or_failure l.
 Proof. exact scenario_total_modelled. Qed.
 Print Assumptions C19_scenario_total_modelled.
@@ -100,6 +107,7 @@ Proof. vm_compute. repeat split. Qed.
 Example C19_example_scenario :
   let ok := {| rs_conn := ConnOk; rs_status := 200; rs_body_ok := true; rs_h2 := false |} in
   let cut := {| rs_conn := ConnOk; rs_status := 200; rs_body_ok := false; rs_h2 := false |} in
+  let mk_step := mk_step {| go_dump := true; go_trace := true; go_answlog := Some AnswAll; go_debug := true |} in
   scenario_shoot true [mk_step true true true ok [PPHeader [([SSubstr [[53%N]; [56%N]]], [97%N; 98%N; 99%N])]; PPXpath [(true, XNumber)]];
                        mk_step true true true ok []]
   = Returned [{| sm_code := 0; sm_err := true |}] /\
